@@ -92,11 +92,13 @@ def main():
     for e in evs:
         per_obj.setdefault(e["o"], []).append(e)
     stream = max(per_obj.values(), key=len) if per_obj else []
-    t_ok = {"id": 1, "ev": stream}
+    t_ok = {"id": 1, "ev": stream, "pre": False}
     first_compute = next((i for i, e in enumerate(stream) if e["k"] == "compute"
                           and any(f["k"] == "hit" and f["p"] == e["p"] for f in stream[i + 1:])), None)
-    t_missing = {"id": 2, "ev": [e for i, e in enumerate(stream) if i != first_compute]}
-    t_dup = {"id": 3, "ev": stream[:(first_compute or 0) + 1] + stream[(first_compute or 0):]}
+    t_missing = {"id": 2, "pre": False,
+                 "ev": [e for i, e in enumerate(stream) if i != first_compute]}
+    t_dup = {"id": 3, "pre": False,
+             "ev": stream[:(first_compute or 0) + 1] + stream[(first_compute or 0):]}
     acc, rej, err = relation.validate([t_ok, t_missing, t_dup], spec="TraceCache")
     out["checks"].append({"what": "hook installed and events recorded (%d)" % len(evs),
                           "ok": bool(installed) and len(evs) > 10})
